@@ -150,7 +150,7 @@ xrep0_pipe_init(void *arg, nni_pipe *pipe, void *s)
 	// willing to receive replies.  Something to think about for the
 	// future.)
 	if ((rv = nni_msgq_init(&p->sendq, 64)) != 0) {
-		xrep0_pipe_fini(p);
+		// pipe_create closes, stops and finalizes the pipe
 		return (rv);
 	}
 	return (0);
@@ -193,7 +193,9 @@ xrep0_pipe_close(void *arg)
 	nni_aio_close(&p->aio_send);
 	nni_aio_close(&p->aio_recv);
 	nni_aio_close(&p->aio_putq);
-	nni_msgq_close(p->sendq);
+	if (p->sendq != NULL) { // NULL if xrep0_pipe_init failed
+		nni_msgq_close(p->sendq);
+	}
 
 	nni_mtx_lock(&s->lk);
 	nni_id_remove(&s->pipes, nni_pipe_id(p->pipe));
